@@ -91,13 +91,16 @@ func genScenario(r *mon.Rand, idx int, thorough bool) Scenario {
 			cs.N = 10
 		case x < 80:
 			cs.N = r.Range(2, 60)
-		case x < 97 || !thorough:
+		case x < 98 || !thorough:
 			cs.N = 1000
 		default:
 			cs.N = 10000
 		}
-		if !thorough && cs.N == 1000 && r.Chance(1, 2) {
+		if cs.N == 1000 && r.Chance(1, 2) {
 			cs.N = r.Range(100, 400)
+		}
+		if s.Stamped && cs.N > 1000 {
+			cs.N = 1000 // keeps the stamp log of one run small
 		}
 		S := r.Range(1, 4)
 		R := r.Range(1, 4)
@@ -141,6 +144,9 @@ func genScenario(r *mon.Rand, idx int, thorough bool) Scenario {
 			if s.Stamped && r.Chance(1, 4) {
 				g.Lag = mon.Pick(r, []int{20, 200})
 			}
+			if cs.N > 100 && g.Yield > 0 && g.Yield < 7 {
+				g.Yield = 7 // long runs: occasional yields only (a Gosched per message dominates the run otherwise)
+			}
 			s.Gors = append(s.Gors, g)
 		}
 		for i := 1; i <= R; i++ {
@@ -162,7 +168,10 @@ func genScenario(r *mon.Rand, idx int, thorough bool) Scenario {
 				g.Quota = quota[i-1]
 			}
 			if s.Stamped && r.Chance(1, 2) {
-				g.Lag = mon.Pick(r, []int{50, 500, 3000})
+				g.Lag = mon.Pick(r, []int{50, 300, 1000})
+			}
+			if cs.N > 100 && g.Yield > 0 && g.Yield < 7 {
+				g.Yield = 7
 			}
 			s.Gors = append(s.Gors, g)
 		}
@@ -371,13 +380,27 @@ func (s *Scenario) Render() string {
 	b.ln("post := []")
 	for i := range s.Chans {
 		cn := chName(i)
-		b.ln("p1 := <-%s", cn)
-		b.ln("p2 := %s.receive()", cn)
-		b.ln("pn := 0")
-		b.ln("for _, v := range %s { pn += 1 }", cn)
-		b.ln("for v in %s { pn += 1 }", cn)
-		b.ln("post.append([p1, p2, pn])")
+		b.ln("p1_%d := <-%s", i, cn)
+		b.ln("p2_%d := %s.receive()", i, cn)
+		b.ln("pn_%d := 0", i)
+		b.ln("for _, v := range %s { pn_%d += 1 }", cn, i)
+		b.ln("for v in %s { pn_%d += 1 }", cn, i)
+		b.ln("post.append([p1_%d, p2_%d, pn_%d])", i, i, i)
 	}
+	// a buffered channel accepts as many sends as it has slots without any receiver, FIFO
+	b.ln("selfbuf := []")
+	for i, c := range s.Chans {
+		if c.Ctor == "make" {
+			b.ln("sb%d := make(chan, %d)", i, c.Cap)
+		} else {
+			b.ln("sb%d := chan(%d)", i, c.Cap)
+		}
+		b.ln("for i := 0; i < %d; i++ { sb%d <- i }", c.Cap, i)
+		b.ln("so%d := []", i)
+		b.ln("for i := 0; i < %d; i++ { so%d.append(<-sb%d) }", c.Cap, i, i)
+		b.ln("selfbuf.append(so%d)", i)
+	}
+	b.ln("post.append(selfbuf)")
 	if s.Scope == "func" {
 		b.ln("return [sres, rres, post]")
 		b.ind--
@@ -511,7 +534,7 @@ func (s *Scenario) renderBody(b *sb, i int) {
 		case "errval":
 			b.ln("ret := errors.new(\"ev \" + string(id))")
 		case "raise":
-			b.ln("error(\"raised by %%d after %%d of %%d\", id, sent, n)")
+			b.ln("%s", "error(\"raised by %d after %d of %d\", id, sent, n)")
 			b.ln("ret := nil")
 		}
 	} else {
